@@ -85,7 +85,7 @@ func blockerFrameName(t string) string {
 
 // Case is one program of the space (JSON: the replay contract).
 type Case struct {
-	Family string   `json:"family"`        // tail | blocked | transparency-only | multiform
+	Family string   `json:"family"`        // tail | blocked | transparency-only | multiform | sequence
 	Def    string   `json:"def,omitempty"` // "" (top-level defun) | labels (the loop is a set of labels-bound closures)
 	Shape  []string `json:"shape"`         // outermost first
 	Topo   int      `json:"topo"`          // cycle length 1..3
@@ -100,6 +100,12 @@ type Case struct {
 	Turn      string `json:"turn,omitempty"`      // first | second | last : the turn on which the side call is made
 	Target    string `json:"target,omitempty"`    // self | next : the function the side call calls
 	Main      string `json:"main,omitempty"`      // direct | funcall | apply : how the main tail call is made
+	// sequence family only: K separate loops of N turns each on one runtime,
+	// under Stack.MaxTailIterations = Limit.
+	Starter string `json:"starter,omitempty"` // toplevel | dotimes | map | host-funcall
+	Funcs   string `json:"funcs,omitempty"`   // same | alt | cycle2
+	K       int    `json:"k,omitempty"`
+	Limit   int    `json:"limit,omitempty"`
 	// Ns is set for the constant-stack relation: the iteration counts whose
 	// maximum stack heights were compared.
 	Ns     []int  `json:"ns,omitempty"`
@@ -116,6 +122,9 @@ func (c Case) tokens() []string {
 	}
 	if c.Family == "multiform" {
 		t = append(t, "MF-"+c.Container)
+	}
+	if c.Family == "sequence" {
+		t = append(t, "SEQ-"+c.Starter)
 	}
 	return append(t, c.Shape...)
 }
@@ -345,6 +354,9 @@ func recursive(c Case, k int) (rec string, macroBody string) {
 func Source(c Case) string {
 	if c.Family == "multiform" {
 		return sourceMulti(c)
+	}
+	if c.Family == "sequence" {
+		return sourceSeq(c)
 	}
 	var b strings.Builder
 	b.WriteString("(set 'g-n 0) (set 'g-a 0)\n")
@@ -593,4 +605,80 @@ func sourceMulti(c Case) string {
 	}
 	b.WriteString(top + "\n")
 	return b.String()
+}
+
+// ---------------------------------------------------------------------------
+// sequence family: K separate tail loops of N turns on one runtime.
+
+var starters = []string{"toplevel", "dotimes", "map", "host-funcall"}
+var funcPatterns = []string{"same", "alt", "cycle2"}
+
+// seqStart names the function that starts loop i.
+func seqStart(c Case, i int) string {
+	if c.Funcs == "alt" {
+		return fmt.Sprintf("f%d", i%2)
+	}
+	return "f0"
+}
+
+func sourceSeq(c Case) string {
+	var b strings.Builder
+	b.WriteString("(set 'g-n 0) (set 'g-a 0)\n")
+	loc := vars{n: "n", a: "acc"}
+	base := "(progn (c02-probe) (debug-print 'base acc) acc)"
+	nf := 1
+	if c.Funcs != "same" {
+		nf = 2
+	}
+	for k := 0; k < nf; k++ {
+		target := k // same, alt: every function is its own loop
+		if c.Funcs == "cycle2" {
+			target = (k + 1) % 2
+		}
+		f := callTo(c, target, loc, "(- n 1)", fmt.Sprintf("(- (+ n %d) acc)", k+1))
+		f.bare = true
+		for i := len(c.Shape) - 1; i >= 0; i-- {
+			f = wrap(c, c.Shape[i], i+1, k, loc, f)
+		}
+		fmt.Fprintf(&b, "(defun f%d (n acc) (if (<= n 0) %s %s))\n", k, base, f.String())
+	}
+	call := func(i int) string { return fmt.Sprintf("(%s %d %d)", seqStart(c, i), c.N, i) }
+	pick := fmt.Sprintf("(f0 %d i)", c.N)
+	if c.Funcs == "alt" {
+		pick = fmt.Sprintf("(if (= (mod i 2) 0) (f0 %d i) (f1 %d i))", c.N, c.N)
+	}
+	switch c.Starter {
+	case "toplevel":
+		for i := 0; i < c.K; i++ {
+			b.WriteString(call(i) + "\n")
+		}
+		b.WriteString("'finished\n")
+	case "dotimes":
+		fmt.Fprintf(&b, "(progn (dotimes (i %d) %s) 'finished)\n", c.K, pick)
+	case "map":
+		var idx []string
+		for i := 0; i < c.K; i++ {
+			idx = append(idx, fmt.Sprint(i))
+		}
+		fmt.Fprintf(&b, "(map 'list (lambda (i) %s) '(%s))\n", pick, strings.Join(idx, " "))
+	case "host-funcall":
+		// the loops are entered from the host, see optsOf
+	default:
+		panic("harness: starter " + c.Starter)
+	}
+	return b.String()
+}
+
+// optsOf derives the per-run runtime settings of a case.
+func optsOf(c Case) runOpts {
+	if c.Family != "sequence" {
+		return runOpts{}
+	}
+	ro := runOpts{Limit: c.Limit}
+	if c.Starter == "host-funcall" {
+		for i := 0; i < c.K; i++ {
+			ro.Host = append(ro.Host, hostCall{Fn: seqStart(c, i), Args: []int{c.N, i}})
+		}
+	}
+	return ro
 }
